@@ -299,6 +299,30 @@ pub fn record(args: &Args) {
             }
         }
     }
+    // ---- the unsampled method makes no random draws: the same call twice returns bitwise the same profile and bounds, also
+    // on games full of exact ties (all payoffs equal, symmetric games) where a tie-break by lot would show
+    for (name, t) in zoo::all().into_iter().filter(|(n, _)| ["flat", "pennies", "rps", "lonely", "coins", "kuhn"].contains(&n.as_str())) {
+        for preset in cfr::PRESETS {
+            let run = |t: &Tree| -> Result<([Vec<f64>; 2], [u64; 2]), String> {
+                let t2 = t.clone();
+                util::catch(move || {
+                    let game = tree::build(&t2).map_err(|e| format!("{e:?}"))?;
+                    verif::reset();
+                    let (s, b) = game.solve(cfr::method("Full"), 7, 0.0, 1, Some(cfr::params(&cfr::preset(preset)))).map_err(|e| format!("{e:?}"))?;
+                    Ok((s.verif_dense(), [b.player_regret_bound(cfr::PlayerNum::One).to_bits(), b.player_regret_bound(cfr::PlayerNum::Two).to_bits()]))
+                })
+                .and_then(|r| r)
+            };
+            match (run(&t), run(&t)) {
+                (Ok(a), Ok(b)) => {
+                    let same = a.1 == b.1 && a.0.iter().zip(b.0.iter()).all(|(x, y)| x.len() == y.len() && x.iter().zip(y.iter()).all(|(p, q)| p.to_bits() == q.to_bits()));
+                    out.line(&json!({"e": "repeat", "game": name, "preset": preset, "same": same}));
+                    runs += 2;
+                }
+                (x, y) => failed.push(json!({"game": name, "method": "Full", "error": format!("{:?} {:?}", x.err(), y.err())})),
+            }
+        }
+    }
     out.line(&json!({"e": "freq"}));
     // ---- frequency runs: flat payoffs, injected skewed strategies, one iteration per solve
     let reps = if thorough { 1000 } else { 1000 };
